@@ -1,12 +1,18 @@
 #!/bin/bash
-# usage: tools/sweep.sh <tier> <seed> [ids...]   -- runs checks sequentially, prints one summary line per check
+# usage: tools/sweep.sh <tier> <seed> [ids...]   -- runs checks sequentially, prints one summary line per check.
+# Under `vp run --with-repo` the snapshots of /verif and of /repo's HEAD ($VP_RUN_REPO) are used, so both
+# trees stay free for other work (seeded changes are applied to /repo itself).
 tier=$1; seed=$2; shift 2
 ids=${@:-C01 C02 C03 C04 C05 C06 C07 C08 C09 C10 C11 C12 C13 C14 C15 C16 C17 C18 C19 C20}
-cd /verif
+here=$(cd "$(dirname "$0")/.." && pwd)
+cd "$here"
+repo=${VP_RUN_REPO:-/repo}
+export VMON_REPO_SRC=$repo/src
+echo "# sweep: verif=$here repo=$repo ($(git -C $repo log --format=%h -1 2>/dev/null))"
 for id in $ids; do
-  out=$(PYTHONPATH=/verif:/repo/src /venv/bin/python -m vmon.run $id --tier $tier --seed $seed --no-evidence 2>&1)
+  out=$(PYTHONPATH=$here:$repo/src /venv/bin/python -m vmon.run $id --tier $tier --seed $seed --no-evidence 2>&1)
   rc=$?
   echo "== $id rc=$rc $(echo "$out" | grep "^$id tier" | cut -c1-200)"
   echo "$out" | grep "largest error" | cut -c1-200
-  if [ $rc -ne 0 ]; then echo "$out" | grep -o "key=[^ ]*" | sort | uniq -c | head -20; echo "$out" | grep -i "inconclusive\|missing\|Traceback" | head -10; fi
+  if [ $rc -ne 0 ]; then echo "$out" | grep -o "key=[^ ]*" | sort | uniq -c | head -20; echo "$out" | grep -A1 "^VIOLATION" | cut -c1-800 | head -12; echo "$out" | grep -i "inconclusive\|missing\|Traceback" | head -10; fi
 done
